@@ -20,6 +20,26 @@
 //!               `h2x` = the same call three times concurrently on the one connection;
 //!               `callz-*` = compression enabled on both ends, plans cut the compressed bytes)
 //!     status = <code> <msg> <details> <hmap>
+//!   The kind token may carry flags `+<flag>`… (in the order of `FLAG_NAMES`).  Every flag switches on a dimension
+//!   that must be INVISIBLE in the result (the Lean driver validates the names and predicts as without them):
+//!     lim    message-size limits on all four ends (client enc/dec, server dec/enc) set to exactly the largest
+//!            message of that direction
+//!     gen    the server `Grpc` is configured the way generated code does it (`apply_compression_config`,
+//!            `apply_max_message_size_config`)
+//!     clone  the configured client `Grpc` is cloned and the clone makes the call
+//!     twice  the same client `Grpc` (same service / channel) makes the call twice in a row; both must come out the same
+//!     api2   the other public constructors / accessors: `Grpc::new`, `IntoRequest` / `IntoStreamingRequest`, `Request::new` +
+//!            `metadata_mut`, `Request::map`, `Response::from_parts` / `From<T>` / `map`, `metadata()` + `into_inner()`,
+//!            `Stream::poll_next` (`StreamExt::next`) instead of `Streaming::message`
+//!     hints  the transport bodies give honest `size_hint` / `is_end_stream` hints and, like hyper, stop polling a
+//!            body that says `is_end_stream()` (in-process cases)
+//!     icpt   a pass-through interceptor (`InterceptedService`) around the client's service and around the server
+//!     knobs  (`h2`) `Server::builder()` and `Endpoint` builder knobs that must not change a call: timeouts far away,
+//!            concurrency / rate limits not reached, small flow-control windows, frame size, a user layer whose
+//!            response body gives no hints, user-agent
+//!     lazy   (`h2`) `Endpoint::connect_with_connector_lazy`
+//!     nocomp (`callz`) the handler of a unary-response shape calls `Response::disable_compression`
+//!   `callz-<x><y>`: requests compressed with x, responses with y (client send x / accept y, server accept x / send y).
 //! Observed (after a summary token `K=<handler got>/<client got>`):
 //!   SEEN notcalled | SEEN unary <rhmap> <msg> | SEEN stream <rhmap> <k> <msg>*k open|done|err <rstatus>
 //!   CLIENT err <rstatus> | CLIENT single <rhmap> <msg> | CLIENT hang
@@ -75,6 +95,10 @@ pub struct Case {
     pub conc: usize,
     /// compression enabled (send + accept) on both ends: 'g' gzip, 'd' deflate, 'z' zstd (`callz-*` cases)
     pub comp: Option<char>,
+    /// encoding of the response direction when it differs from `comp` (`callz-<x><y>`)
+    pub comp2: Option<char>,
+    /// invisible dimensions switched on (names from `FLAG_NAMES`)
+    pub flags: Vec<&'static str>,
     pub srv_req_stream: bool,
     pub srv_resp_stream: bool,
     pub cli_resp_stream: bool,
@@ -135,16 +159,42 @@ fn status_line(st: &Option<StatusSpec>) -> String {
     }
 }
 
+pub const FLAG_NAMES: [&str; 10] = ["lim", "gen", "clone", "twice", "api2", "hints", "icpt", "knobs", "lazy", "nocomp"];
+
 impl Case {
+    pub fn has(&self, f: &str) -> bool {
+        self.flags.iter().any(|x| *x == f)
+    }
+    fn flag_suffix(&self) -> String {
+        FLAG_NAMES.iter().filter(|f| self.has(f)).map(|f| format!("+{}", f)).collect()
+    }
+    /// response-direction encoding
+    pub fn comp_resp(&self) -> Option<char> {
+        self.comp2.or(self.comp)
+    }
+    /// `lim`: (largest request message, largest response message)
+    pub fn limits(&self) -> Option<(usize, usize)> {
+        if !self.has("lim") {
+            return None;
+        }
+        let mx = |t: &[Tok]| t.iter().filter_map(|x| if let Tok::Msg(m) = x { Some(m.len()) } else { None }).max().unwrap_or(0);
+        // with compression on the limits apply to the compressed payload: leave room
+        let slack = |n: usize| if self.comp.is_some() { n * 2 + 1024 } else { n };
+        Some((slack(mx(&self.rq)), slack(mx(&self.body))))
+    }
     pub fn line(&self) -> String {
         format!(
-            "{}.S{}{}.C{} {} RQMD {} RQ {} RQCUT {} H {} E {} INIT {} BODY {} FINAL {} RSCUT {}",
+            "{}{}.S{}{}.C{} {} RQMD {} RQ {} RQCUT {} H {} E {} INIT {} BODY {} FINAL {} RSCUT {}",
             match (self.h2, self.conc > 1, self.comp) {
                 (true, true, _) => "h2x".to_string(),
                 (true, false, _) => "h2".to_string(),
-                (false, _, Some(c)) => format!("callz-{}", c),
+                (false, _, Some(c)) => match self.comp2 {
+                    Some(c2) => format!("callz-{}{}", c, c2),
+                    None => format!("callz-{}", c),
+                },
                 (false, _, None) => "call".to_string(),
             },
+            self.flag_suffix(),
             b(self.srv_req_stream),
             b(self.srv_resp_stream),
             b(self.cli_resp_stream),
@@ -233,7 +283,12 @@ pub fn parse_case(line: &str) -> Option<Case> {
     if head.len() != 3 {
         return None;
     }
-    let kind = head[0];
+    let mut kf = head[0].split('+');
+    let kind = kf.next()?;
+    let mut flags = Vec::new();
+    for f in kf {
+        flags.push(*FLAG_NAMES.iter().find(|n| **n == f)?);
+    }
     if kind != "call" && kind != "h2" && kind != "h2x" && !kind.starts_with("callz-") {
         return None;
     }
@@ -265,6 +320,8 @@ pub fn parse_case(line: &str) -> Option<Case> {
         h2: kind == "h2" || kind == "h2x",
         conc: if kind == "h2x" { 3 } else { 1 },
         comp: kind.strip_prefix("callz-").and_then(|c| c.chars().next()),
+        comp2: kind.strip_prefix("callz-").and_then(|c| c.chars().nth(1)),
+        flags,
         srv_req_stream: s[1] == b'1',
         srv_resp_stream: s[2] == b'1',
         cli_resp_stream: cl[1] == b'1',
@@ -382,14 +439,39 @@ pub struct ReChunk {
     inner_done: bool,
     trailers: Option<HeaderMap>,
     polls_after_end: usize,
+    /// `hints` cases: give honest `size_hint` / `is_end_stream` answers, and (like hyper) do not poll
+    /// a wrapped body that says it is at its end
+    hints: bool,
+    /// an upper bound of the data bytes the wrapped body will produce in all, when the case tells
+    bound: Option<usize>,
+    pulled: usize,
 }
 
 impl ReChunk {
     pub fn new(inner: Body, plan: &[Step]) -> Self {
-        ReChunk { inner, plan: plan.iter().cloned().collect(), buf: BytesMut::new(), inner_done: false, trailers: None, polls_after_end: 0 }
+        ReChunk {
+            inner,
+            plan: plan.iter().cloned().collect(),
+            buf: BytesMut::new(),
+            inner_done: false,
+            trailers: None,
+            polls_after_end: 0,
+            hints: false,
+            bound: None,
+            pulled: 0,
+        }
+    }
+    pub fn with_hints(inner: Body, plan: &[Step], bound: Option<usize>) -> Self {
+        ReChunk { hints: true, bound, ..ReChunk::new(inner, plan) }
     }
     /// pull one frame of the wrapped body into the buffer
     fn pull(&mut self, cx: &mut Context<'_>) -> Poll<Result<(), Status>> {
+        if self.hints && self.inner.is_end_stream() {
+            // hyper looks at `is_end_stream()` before the first poll and after every frame and
+            // closes the stream without polling again
+            self.inner_done = true;
+            return Poll::Ready(Ok(()));
+        }
         match Pin::new(&mut self.inner).poll_frame(cx) {
             Poll::Pending => Poll::Pending,
             Poll::Ready(None) => {
@@ -399,7 +481,9 @@ impl ReChunk {
             Poll::Ready(Some(Err(e))) => Poll::Ready(Err(e)),
             Poll::Ready(Some(Ok(f))) => {
                 if f.is_data() {
-                    self.buf.extend_from_slice(&f.into_data().unwrap());
+                    let d = f.into_data().unwrap();
+                    self.pulled += d.len();
+                    self.buf.extend_from_slice(&d);
                 } else if let Ok(t) = f.into_trailers() {
                     // trailers end a body
                     self.trailers = Some(t);
@@ -458,6 +542,28 @@ impl HttpBody for ReChunk {
                 }
             }
         }
+    }
+    fn is_end_stream(&self) -> bool {
+        if !self.hints {
+            return false;
+        }
+        // true only when `poll_frame` would answer `None` right away
+        self.plan.is_empty() && self.buf.is_empty() && self.trailers.is_none() && (self.inner_done || self.inner.is_end_stream())
+    }
+    fn size_hint(&self) -> http_body::SizeHint {
+        let mut h = http_body::SizeHint::new();
+        if !self.hints {
+            return h;
+        }
+        // data bytes still to be handed out: what is buffered, plus what the wrapped body still has
+        let have = self.buf.len() as u64;
+        h.set_lower(have);
+        if self.inner_done || self.inner.is_end_stream() {
+            h.set_exact(have);
+        } else if let Some(b) = self.bound {
+            h.set_upper(have + (b.saturating_sub(self.pulled)) as u64);
+        }
+        h
     }
 }
 
@@ -542,8 +648,21 @@ impl Handler {
             .iter()
             .find_map(|t| if let Tok::Msg(m) = t { Some(m.clone()) } else { None })
             .expect("a unary-response handler script has a message");
-        let mut r = Response::new(m);
-        *r.metadata_mut() = metadata(&self.case.init_md);
+        let mut r = if self.case.has("api2") {
+            // the other ways to a `Response`: `From<T>` for a bare message, `from_parts`, `map`
+            if self.case.init_md.is_empty() {
+                Response::from(m)
+            } else {
+                Response::from_parts(metadata(&self.case.init_md), (m, 0u8), Default::default()).map(|(m, _)| m)
+            }
+        } else {
+            let mut r = Response::new(m);
+            *r.metadata_mut() = metadata(&self.case.init_md);
+            r
+        };
+        if self.case.has("nocomp") {
+            r.disable_compression();
+        }
         Ok(r)
     }
     fn stream(&self) -> Result<Response<BoxStream>, Status> {
@@ -551,8 +670,13 @@ impl Handler {
             return Err(make_status(e));
         }
         let s = RespStream { toks: self.case.body.iter().cloned().collect(), fin: self.case.fin.as_ref().map(make_status), ended: false };
-        let mut r = Response::new(Box::pin(s) as BoxStream);
-        *r.metadata_mut() = metadata(&self.case.init_md);
+        let r = if self.case.has("api2") {
+            Response::from_parts(metadata(&self.case.init_md), s, Default::default()).map(|s| Box::pin(s) as BoxStream)
+        } else {
+            let mut r = Response::new(Box::pin(s) as BoxStream);
+            *r.metadata_mut() = metadata(&self.case.init_md);
+            r
+        };
         Ok(r)
     }
     /// metadata as the handler got it; over the real channel tonic's transport adds its own
@@ -582,11 +706,24 @@ impl Handler {
         self.record(format!("unary {} {}", self.seen_md(req.metadata()), hex(req.get_ref())));
     }
     async fn read_stream(&self, req: Request<Streaming<Vec<u8>>>) {
-        let (md, _ext, mut s) = req.into_parts();
+        let api2 = self.case.has("api2");
+        let (md, mut s) = if api2 {
+            let md = req.metadata().clone();
+            (md, req.into_inner())
+        } else {
+            let (md, _ext, s) = req.into_parts();
+            (md, s)
+        };
         let mut msgs = Vec::new();
         let mut ended = "open".to_string();
         for _ in 0..self.case.reads {
-            match s.message().await {
+            let item = if api2 {
+                // `Streaming` as a `Stream`
+                tokio_stream::StreamExt::next(&mut s).await.transpose()
+            } else {
+                s.message().await
+            };
+            match item {
                 Ok(Some(m)) => msgs.push(hex(&m)),
                 Ok(None) => {
                     ended = "done".into();
@@ -675,8 +812,29 @@ const COMPRESSION_NAMES: [&str; 2] = ["grpc-encoding", "grpc-accept-encoding"];
 
 async fn serve(case: Arc<Case>, seen: Arc<Mutex<String>>, req: http::Request<Body>) -> http::Response<Body> {
     let mut grpc = tonic::server::Grpc::new(RawCodec(case.yield_thr));
-    if let Some(e) = encoding_of(case.comp) {
-        grpc = grpc.accept_compressed(e).send_compressed(e);
+    let (acc, snd) = (encoding_of(case.comp), encoding_of(case.comp_resp()));
+    let lims = case.limits();
+    if case.has("gen") {
+        // what generated servers do
+        let mut a = tonic::codec::EnabledCompressionEncodings::default();
+        let mut s = tonic::codec::EnabledCompressionEncodings::default();
+        if let Some(e) = acc {
+            a.enable(e);
+        }
+        if let Some(e) = snd {
+            s.enable(e);
+        }
+        grpc = grpc.apply_compression_config(a, s).apply_max_message_size_config(lims.map(|l| l.0), lims.map(|l| l.1));
+    } else {
+        if let Some(e) = acc {
+            grpc = grpc.accept_compressed(e);
+        }
+        if let Some(e) = snd {
+            grpc = grpc.send_compressed(e);
+        }
+        if let Some((rq, rs)) = lims {
+            grpc = grpc.max_decoding_message_size(rq).max_encoding_message_size(rs);
+        }
     }
     let h = Handler { case: case.clone(), seen };
     match (case.srv_req_stream, case.srv_resp_stream) {
@@ -690,6 +848,12 @@ async fn serve(case: Arc<Case>, seen: Arc<Mutex<String>>, req: http::Request<Bod
 // ---------------------------------------------------------------------------------------------
 // quick tier transport: in-process adapter
 // ---------------------------------------------------------------------------------------------
+
+/// the interceptor of `icpt` cases: hands the request on as it is
+type PassFn = fn(Request<()>) -> Result<Request<()>, Status>;
+fn pass_through(r: Request<()>) -> Result<Request<()>, Status> {
+    Ok(r)
+}
 
 #[derive(Clone)]
 struct InProc {
@@ -708,11 +872,26 @@ impl tower::Service<http::Request<Body>> for InProc {
         let case = self.case.clone();
         let seen = self.seen.clone();
         Box::pin(async move {
+            let hints = case.has("hints");
+            // what the case tells about the size of the two bodies (nothing when they are compressed)
+            let bound = |t: &[Tok]| if case.comp.is_some() { None } else { Some(frame_starts(t).1) };
             let (parts, body) = req.into_parts();
-            let req = http::Request::from_parts(parts, Body::new(ReChunk::new(body, &case.rq_cut)));
-            let resp = serve(case.clone(), seen, req).await;
+            let rq_body = if hints { ReChunk::with_hints(body, &case.rq_cut, bound(&case.rq)) } else { ReChunk::new(body, &case.rq_cut) };
+            let req = http::Request::from_parts(parts, Body::new(rq_body));
+            let resp = if case.has("icpt") {
+                use tower::ServiceExt;
+                let (c2, s2) = (case.clone(), seen.clone());
+                let inner = tower::service_fn(move |req: http::Request<Body>| {
+                    let (c3, s3) = (c2.clone(), s2.clone());
+                    async move { Ok::<_, Status>(serve(c3, s3, req).await) }
+                });
+                tonic::service::interceptor::InterceptedService::new(inner, pass_through as PassFn).oneshot(req).await?.map(Body::new)
+            } else {
+                serve(case.clone(), seen, req).await
+            };
             let (parts, body) = resp.into_parts();
-            Ok(http::Response::from_parts(parts, Body::new(ReChunk::new(body, &case.rs_cut))))
+            let rs_body = if hints { ReChunk::with_hints(body, &case.rs_cut, bound(&case.body)) } else { ReChunk::new(body, &case.rs_cut) };
+            Ok(http::Response::from_parts(parts, Body::new(rs_body)))
         })
     }
 }
@@ -723,18 +902,55 @@ impl tower::Service<http::Request<Body>> for InProc {
 
 async fn client_call<T>(case: &Case, svc: T, strip: &[&str]) -> String
 where
+    T: tonic::client::GrpcService<Body> + Clone + Send,
+    T::ResponseBody: HttpBody<Data = Bytes> + Send + 'static,
+    <T::ResponseBody as HttpBody>::Error: Into<Box<dyn std::error::Error + Send + Sync>> + Send,
+    T::Future: Send,
+{
+    // `api2`: `Grpc::new`, as generated clients do (over a channel the origin comes from its AddOrigin layer)
+    let mut grpc = if case.has("api2") {
+        tonic::client::Grpc::new(svc)
+    } else {
+        tonic::client::Grpc::with_origin(svc, http::Uri::from_static("http://verif.test"))
+    };
+    if let Some(e) = encoding_of(case.comp) {
+        grpc = grpc.send_compressed(e);
+    }
+    if let Some(e) = encoding_of(case.comp_resp()) {
+        grpc = grpc.accept_compressed(e);
+    }
+    if let Some((rq, rs)) = case.limits() {
+        grpc = grpc.max_encoding_message_size(rq).max_decoding_message_size(rs);
+    }
+    if case.has("clone") {
+        // the configured value is cloned (generated clients are `Clone`); the clone makes the call
+        let c = grpc.clone();
+        drop(grpc);
+        grpc = c;
+    }
+    let first = one_call(case, &mut grpc, strip).await;
+    if case.has("twice") {
+        // the same client value again: it must behave as the first time
+        let second = one_call(case, &mut grpc, strip).await;
+        if second != first {
+            return format!("CLIENT DIVERGED {}", format!("{}_||_{}", first, second).replace(' ', "_"));
+        }
+    }
+    first
+}
+
+async fn one_call<T>(case: &Case, grpc: &mut tonic::client::Grpc<T>, strip: &[&str]) -> String
+where
     T: tonic::client::GrpcService<Body> + Send,
     T::ResponseBody: HttpBody<Data = Bytes> + Send + 'static,
     <T::ResponseBody as HttpBody>::Error: Into<Box<dyn std::error::Error + Send + Sync>> + Send,
     T::Future: Send,
 {
-    let mut grpc = tonic::client::Grpc::with_origin(svc, http::Uri::from_static("http://verif.test"));
-    if let Some(e) = encoding_of(case.comp) {
-        grpc = grpc.send_compressed(e).accept_compressed(e);
-    }
+    use tonic::{IntoRequest, IntoStreamingRequest};
     if grpc.ready().await.is_err() {
         return "CLIENT notready".into();
     }
+    let api2 = case.has("api2");
     let path = http::uri::PathAndQuery::from_static("/verif.Svc/Call");
     let codec = RawCodec(case.yield_thr);
     let md = metadata(&case.rq_md);
@@ -743,6 +959,30 @@ where
         _ => None,
     };
     let mk_stream = || ReqStream(case.rq.iter().cloned().collect(), false);
+    // `api2`: the way generated clients and their users build requests: a bare message / stream or a
+    // `Request::new` value with `metadata_mut`, through `IntoRequest` / `IntoStreamingRequest`
+    let single = |m: Vec<u8>| -> Request<Vec<u8>> {
+        if !api2 {
+            Request::from_parts(md.clone(), Default::default(), m)
+        } else if case.rq_md.is_empty() {
+            m.into_request()
+        } else {
+            let mut r = Request::new((m, 0u8));
+            *r.metadata_mut() = md.clone();
+            r.map(|(m, _)| m).into_request()
+        }
+    };
+    let streamed = || -> Request<ReqStream> {
+        if !api2 {
+            Request::from_parts(md.clone(), Default::default(), mk_stream())
+        } else if case.rq_md.is_empty() {
+            mk_stream().into_streaming_request()
+        } else {
+            let mut r = Request::new(mk_stream());
+            *r.metadata_mut() = md.clone();
+            r.into_streaming_request()
+        }
+    };
     let clean = |m: &MetadataMap| {
         let mut h = m.clone().into_headers();
         for s in strip {
@@ -759,29 +999,46 @@ where
     };
     if !case.cli_resp_stream {
         let r = match single_req {
-            Some(m) => grpc.unary(Request::from_parts(md, Default::default(), m), path, codec).await,
-            None => grpc.client_streaming(Request::from_parts(md, Default::default(), mk_stream()), path, codec).await,
+            Some(m) => grpc.unary(single(m), path, codec).await,
+            None => grpc.client_streaming(streamed(), path, codec).await,
         };
         match r {
             Err(st) => format!("CLIENT err {}", clean_status(&st)),
             Ok(resp) => {
-                let (md, m, _) = resp.into_parts();
-                format!("CLIENT single {} {}", clean(&md), hex(&m))
+                if api2 {
+                    let md = clean(resp.metadata());
+                    format!("CLIENT single {} {}", md, hex(&resp.into_inner()))
+                } else {
+                    let (md, m, _) = resp.into_parts();
+                    format!("CLIENT single {} {}", clean(&md), hex(&m))
+                }
             }
         }
     } else {
         let r = match single_req {
-            Some(m) => grpc.server_streaming(Request::from_parts(md, Default::default(), m), path, codec).await,
-            None => grpc.streaming(Request::from_parts(md, Default::default(), mk_stream()), path, codec).await,
+            Some(m) => grpc.server_streaming(single(m), path, codec).await,
+            None => grpc.streaming(streamed(), path, codec).await,
         };
         match r {
             Err(st) => format!("CLIENT err {}", clean_status(&st)),
             Ok(resp) => {
-                let (md, mut s, _) = resp.into_parts();
+                let (md, mut s) = if api2 {
+                    let md = resp.metadata().clone();
+                    (md, resp.into_inner())
+                } else {
+                    let (md, s, _) = resp.into_parts();
+                    (md, s)
+                };
                 let mut msgs = Vec::new();
                 let ended;
                 loop {
-                    match s.message().await {
+                    let item = if api2 {
+                        // `Streaming` as a `Stream`
+                        tokio_stream::StreamExt::next(&mut s).await.transpose()
+                    } else {
+                        s.message().await
+                    };
+                    match item {
                         Ok(Some(m)) => msgs.push(hex(&m)),
                         Ok(None) => {
                             ended = "ok".to_string();
@@ -818,8 +1075,16 @@ fn exec_inproc(case: Case) -> String {
         let case = Arc::new(case);
         let seen = Arc::new(Mutex::new("notcalled".to_string()));
         let svc = InProc { case: case.clone(), seen: seen.clone() };
-        let strip: &[&str] = if case.comp.is_some() { &COMPRESSION_NAMES } else { &[] };
-        let client = match tokio::time::timeout(Duration::from_secs(30), client_call(&case, svc, strip)).await {
+        let strip: &'static [&'static str] = if case.comp.is_some() { &COMPRESSION_NAMES } else { &[] };
+        let fut: BoxFut<String> = if case.has("icpt") {
+            let c = case.clone();
+            let svc = tonic::service::interceptor::InterceptedService::new(svc, pass_through as PassFn);
+            Box::pin(async move { client_call(&c, svc, strip).await })
+        } else {
+            let c = case.clone();
+            Box::pin(async move { client_call(&c, svc, strip).await })
+        };
+        let client = match tokio::time::timeout(Duration::from_secs(30), fut).await {
             Ok(s) => s,
             Err(_) => "CLIENT hang".to_string(),
         };
@@ -915,6 +1180,39 @@ where
     let _ = w.shutdown().await;
 }
 
+/// a user layer (`Server::builder().layer(..)`) whose response body implements `poll_frame` only:
+/// no `is_end_stream` / `size_hint` hints reach hyper
+#[derive(Clone)]
+struct PlainSvc<S>(S);
+
+struct PlainBody<B>(B);
+
+impl<B: HttpBody + Unpin> HttpBody for PlainBody<B> {
+    type Data = B::Data;
+    type Error = B::Error;
+    fn poll_frame(mut self: Pin<&mut Self>, cx: &mut Context<'_>) -> Poll<Option<Result<Frame<B::Data>, B::Error>>> {
+        Pin::new(&mut self.0).poll_frame(cx)
+    }
+}
+
+impl<S, B> tower::Service<http::Request<Body>> for PlainSvc<S>
+where
+    S: tower::Service<http::Request<Body>, Response = http::Response<B>>,
+    S::Future: Send + 'static,
+    B: HttpBody + Unpin,
+{
+    type Response = http::Response<PlainBody<B>>;
+    type Error = S::Error;
+    type Future = BoxFut<Result<Self::Response, S::Error>>;
+    fn poll_ready(&mut self, cx: &mut Context<'_>) -> Poll<Result<(), S::Error>> {
+        self.0.poll_ready(cx)
+    }
+    fn call(&mut self, req: http::Request<Body>) -> Self::Future {
+        let f = self.0.call(req);
+        Box::pin(async move { Ok(f.await?.map(PlainBody)) })
+    }
+}
+
 #[derive(Clone)]
 struct PipeConnector {
     case: Arc<Case>,
@@ -937,15 +1235,36 @@ impl tower::Service<http::Uri> for PipeConnector {
             let (stop_tx, stop_rx) = tokio::sync::oneshot::channel::<()>();
             me.stops.lock().unwrap().push(stop_tx);
             let svc = H2Svc { case: me.case.clone(), seen: me.seen.clone() };
+            let (knobs, icpt) = (me.case.has("knobs"), me.case.has("icpt"));
             tokio::spawn(async move {
                 use tokio_stream::StreamExt;
                 let incoming = tokio_stream::once(Ok::<_, std::io::Error>(server_io)).chain(tokio_stream::pending());
-                let _ = tonic::transport::Server::builder()
-                    .add_service(svc)
-                    .serve_with_incoming_shutdown(incoming, async move {
-                        let _ = stop_rx.await;
-                    })
-                    .await;
+                let stop = async move {
+                    let _ = stop_rx.await;
+                };
+                let plain = tonic::transport::Server::builder;
+                // `knobs`: settings that must not change any call
+                let knobbed = || {
+                    tonic::transport::Server::builder()
+                        .timeout(Duration::from_secs(3600))
+                        .concurrency_limit_per_connection(8)
+                        // windows LARGER than HTTP/2's initial 65 535: a server that shrinks its stream window
+                        // (e.g. 5000) while the client already has more than 65 535 bytes of one request in flight
+                        // (its SETTINGS still on the way over a slow pipe) stalls the stream inside h2 — flow
+                        // control is outside this property's transport relation (props.d/C02.json, level_note)
+                        .initial_stream_window_size(1_000_000u32)
+                        .initial_connection_window_size(2_000_000u32)
+                        .max_concurrent_streams(16u32)
+                        .max_frame_size(20_000u32)
+                        .layer(tower::layer::layer_fn(PlainSvc))
+                };
+                let isvc = || tonic::service::interceptor::InterceptedService::new(svc.clone(), pass_through as PassFn);
+                let _ = match (knobs, icpt) {
+                    (false, false) => plain().add_service(svc.clone()).serve_with_incoming_shutdown(incoming, stop).await,
+                    (false, true) => plain().add_service(isvc()).serve_with_incoming_shutdown(incoming, stop).await,
+                    (true, false) => knobbed().add_service(svc.clone()).serve_with_incoming_shutdown(incoming, stop).await,
+                    (true, true) => knobbed().add_service(isvc()).serve_with_incoming_shutdown(incoming, stop).await,
+                };
             });
             let (ar, aw) = tokio::io::split(cable_a);
             let (br, bw) = tokio::io::split(cable_b);
@@ -963,15 +1282,41 @@ fn exec_h2(case: Case) -> String {
         let seen = Arc::new(Mutex::new("notcalled".to_string()));
         let stops = Arc::new(Mutex::new(Vec::new()));
         let connector = PipeConnector { case: case.clone(), seen: seen.clone(), stops: stops.clone() };
-        let endpoint = tonic::transport::Endpoint::from_static("http://verif.test");
-        let channel = match tokio::time::timeout(Duration::from_secs(30), endpoint.connect_with_connector(connector)).await {
+        let mut endpoint = tonic::transport::Endpoint::from_static("http://verif.test");
+        if case.has("knobs") {
+            // settings that must not change any call
+            endpoint = endpoint
+                .timeout(Duration::from_secs(3600))
+                .concurrency_limit(8)
+                .rate_limit(1000, Duration::from_secs(1))
+                .initial_stream_window_size(5000u32)
+                .initial_connection_window_size(100_000u32)
+                .buffer_size(4usize)
+                .user_agent("verif-agent/1")
+                .expect("a valid user-agent");
+        }
+        let connecting: BoxFut<Result<tonic::transport::Channel, tonic::transport::Error>> = if case.has("lazy") {
+            let ch = endpoint.connect_with_connector_lazy(connector);
+            Box::pin(async move { Ok(ch) })
+        } else {
+            Box::pin(async move { endpoint.connect_with_connector(connector).await })
+        };
+        let channel = match tokio::time::timeout(Duration::from_secs(30), connecting).await {
             Ok(Ok(ch)) => ch,
             Ok(Err(e)) => return format!("K=notcalled/connect-failed SEEN notcalled CLIENT connect-failed {}", format!("{:?}", e).replace(' ', "_")),
             Err(_) => return "K=notcalled/hang SEEN notcalled CLIENT hang".to_string(),
         };
         // hyper's server adds `date`; it is not part of what tonic or the handler sent
         let client = if case.conc <= 1 {
-            match tokio::time::timeout(Duration::from_secs(60), client_call(&case, channel, &["date"])).await {
+            let fut: BoxFut<String> = if case.has("icpt") {
+                let c = case.clone();
+                let svc = tonic::service::interceptor::InterceptedService::new(channel, pass_through as PassFn);
+                Box::pin(async move { client_call(&c, svc, &["date"]).await })
+            } else {
+                let c = case.clone();
+                Box::pin(async move { client_call(&c, channel, &["date"]).await })
+            };
+            match tokio::time::timeout(Duration::from_secs(60), fut).await {
                 Ok(s) => s,
                 Err(_) => "CLIENT hang".to_string(),
             }
@@ -1352,6 +1697,8 @@ fn gen_structured(rng: &mut Rng, h2: bool) -> Case {
         h2,
         conc: 1,
         comp: None,
+        comp2: None,
+        flags: vec![],
         srv_req_stream: q,
         srv_resp_stream: sresp,
         cli_resp_stream: sresp,
@@ -1446,11 +1793,71 @@ fn gen_malformed(rng: &mut Rng, h2: bool) -> Case {
     c
 }
 
+/// switch on invisible dimensions (see the header): one case in three carries some
+fn gen_flags(rng: &mut Rng, c: &mut Case) {
+    if !rng.chance(1, 3) {
+        return;
+    }
+    let mut on: Vec<&'static str> = Vec::new();
+    for f in ["lim", "gen", "clone", "twice", "api2", "icpt"] {
+        if rng.chance(1, 3) {
+            on.push(f);
+        }
+    }
+    if c.h2 {
+        if rng.chance(1, 2) {
+            on.push("knobs");
+        }
+        if rng.chance(1, 3) {
+            on.push("lazy");
+        }
+    } else if rng.chance(1, 2) {
+        on.push("hints");
+    }
+    if c.comp.is_some() {
+        on.retain(|f| *f != "lim");
+        if !c.srv_resp_stream && rng.chance(1, 2) {
+            on.push("nocomp");
+        }
+    }
+    c.flags = FLAG_NAMES.iter().copied().filter(|f| on.contains(f)).collect();
+}
+
+/// the corpus cases once more with every invisible dimension on its own, and all together
+fn corpus_flagged() -> Vec<Case> {
+    let base = corpus();
+    // unary ok, unary rich error, server streaming with error after two messages, error before the first
+    // message (both ways), a stream of no messages that ends OK, client streaming, bidi
+    let mut picks: Vec<Case> = [0usize, 1, 2, 5, 6, 8, 12, 13].iter().map(|i| base[*i].clone()).collect();
+    let ss_empty_ok = Case { body: vec![], fin: None, ..base[2].clone() };
+    picks.push(ss_empty_ok);
+    let mut out = Vec::new();
+    for c in &picks {
+        for f in ["lim", "gen", "clone", "twice", "api2", "hints", "icpt"] {
+            out.push(Case { flags: vec![f], ..c.clone() });
+        }
+        out.push(Case { flags: vec!["lim", "gen", "clone", "twice", "api2", "hints", "icpt"], ..c.clone() });
+        out.push(Case { flags: vec!["lim", "gen"], ..c.clone() });
+        out.push(Case { flags: vec!["lim", "clone"], ..c.clone() });
+        // compression: one encoding per direction, configured both ways; single responses sent uncompressed
+        for (x, y) in [('g', 'd'), ('z', 'g'), ('d', 'z')] {
+            out.push(Case { comp: Some(x), comp2: Some(y), ..c.clone() });
+            out.push(Case { comp: Some(x), comp2: Some(y), flags: vec!["gen", "clone"], ..c.clone() });
+            if !c.srv_resp_stream {
+                out.push(Case { comp: Some(x), comp2: Some(y), flags: vec!["nocomp"], ..c.clone() });
+            }
+        }
+    }
+    out
+}
+
 fn corpus() -> Vec<Case> {
     let base = Case {
         h2: false,
         conc: 1,
         comp: None,
+        comp2: None,
+        flags: vec![],
         srv_req_stream: false,
         srv_resp_stream: false,
         cli_resp_stream: false,
@@ -1535,7 +1942,24 @@ fn corpus() -> Vec<Case> {
 pub fn generate(tier: &str, rng: &mut Rng) -> Vec<String> {
     let thorough = tier == "thorough";
     let mut out: Vec<String> = corpus().iter().map(|c| c.line()).collect();
+    out.extend(corpus_flagged().iter().map(|c| c.line()));
     let mut h2: Vec<String> = Vec::new();
+    // the real stacks (Channel / transport::Server / Routes over hyper) in the quick tier as well:
+    // the corpus whole and in small fragments, alone and with the h2-side dimensions
+    for c in corpus() {
+        for (plan, flags) in [
+            (vec![], vec![]),
+            (vec![Step::Take(9), Step::Take(1), Step::Pend, Step::Take(5)], vec!["knobs"]),
+            (vec![], vec!["lazy", "icpt"]),
+            (vec![Step::Take(7)], vec!["lim", "gen", "clone", "twice", "api2", "icpt", "knobs", "lazy"]),
+        ] {
+            if thorough && flags.is_empty() {
+                continue; // the thorough tier has this line below
+            }
+            h2.push(Case { h2: true, rq_cut: plan.clone(), rs_cut: plan.clone(), flags: flags.clone(), ..c.clone() }.line());
+        }
+        h2.push(Case { h2: true, conc: 3, rq_cut: vec![], rs_cut: vec![Step::Take(13)], flags: vec!["knobs", "twice"], ..c.clone() }.line());
+    }
     if thorough {
         // the corpus over real HTTP/2 as well, whole and byte by byte
         for c in corpus() {
@@ -1545,28 +1969,38 @@ pub fn generate(tier: &str, rng: &mut Rng) -> Vec<String> {
             }
         }
     }
-    let (n_struct, n_mal, n_h2, n_h2_mal) = if thorough { (400000, 60000, 40000, 6000) } else { (24000, 4000, 0, 0) };
+    let (n_struct, n_mal, n_h2, n_h2_mal) = if thorough { (400000, 60000, 40000, 6000) } else { (24000, 4000, 1200, 200) };
     let mut inproc: Vec<String> = Vec::new();
     for i in 0..n_struct {
         let mut c = gen_structured(rng, false);
         if i % 8 == 7 {
             // compression on at both ends; the model predicts the same results
             c.comp = Some(*rng.pick(&['g', 'd', 'z']));
+            if rng.chance(1, 2) {
+                // another encoding for the responses
+                c.comp2 = Some(*rng.pick(&['g', 'd', 'z']));
+            }
         }
+        gen_flags(rng, &mut c);
         inproc.push(c.line());
     }
     for _ in 0..n_mal {
-        inproc.push(gen_malformed(rng, false).line());
+        let mut c = gen_malformed(rng, false);
+        gen_flags(rng, &mut c);
+        inproc.push(c.line());
     }
     for i in 0..n_h2 {
         let mut c = gen_structured(rng, true);
         if i % 4 == 3 {
             c.conc = 3;
         }
+        gen_flags(rng, &mut c);
         h2.push(c.line());
     }
     for _ in 0..n_h2_mal {
-        h2.push(gen_malformed(rng, true).line());
+        let mut c = gen_malformed(rng, true);
+        gen_flags(rng, &mut c);
+        h2.push(c.line());
     }
     // the HTTP/2 cases are much slower than the in-process ones: spread them evenly over the
     // case list (the runner shards it in contiguous blocks)
